@@ -27,6 +27,12 @@ CHECKS = {
  "C36": ("exploration", "model-based run-time monitor: bloom no-false-negative check and hash index vs multiset model after every step",
          "held on every generated key set / index history of the run: inserted keys always test positive; get/get_with_bloom/probe return exactly the model's tuples per key; counts match",
          "trusted: HashMap multiset model keyed by Value's Eq/Hash", "3/C36"),
+ "C11": ("exploration", "history-replay run-time monitor: live dump vs dump after reopening the same directory, exhaustive short histories + random long ones",
+         "held for every history string up to length 4 (quick) / 5 (thorough) over a 10-letter alphabet and for the random histories of the run, under 3 buffer sizes and 2 shutdown styles: the reopened store equals the live store",
+         "trusted: the engine's own live dump as reference; clean shutdown = drop (no Drop hook) or save_all+drop", "3/C11"),
+ "C12": ("exploration", "round-trip run-time monitor: accepted tuples vs dump after two reopen cycles, over all value kinds and kind pairs",
+         "held on every generated relation of the run apart from the listed known findings (mixed-kind columns, Null/Timestamp/NaN/inf/empty vectors, vector dimension mixes)",
+         "trusted: Value's bitwise Eq; rejected inserts are outside the property", "3/C12"),
 }
 NOT_YET = "monitor not built yet in this round (design in DESIGN.md section 3); not claimed until a check exists"
 
